@@ -882,6 +882,10 @@ class Walker:
                         and not dom[3]:
                     # `for i, x in enumerate(xs)`: x is xs[i]
                     v = ("idx", dom[2][0], ("iterproj", dom, li.lid, (0,)))
+                if len(path) == 1 and dom[0] == "call" and dom[1] == ("builtin", "zip") and len(dom[2]) > path[0] \
+                        and not dom[3]:
+                    # `for a, b in zip(xs, ys)`: a is xs[pos], b is ys[pos]
+                    v = ("idx", dom[2][path[0]], ("iterproj", dom, li.lid, ("pos",)))
                 env[t.id] = v
                 li.targets[t.id] = v
             elif isinstance(t, (ast.Tuple, ast.List)):
@@ -1071,6 +1075,9 @@ class Walker:
                         if path == [1] and it[0] == "call" and it[1] == ("builtin", "enumerate") and len(it[2]) == 1 \
                                 and not it[3]:
                             v = ("idx", it[2][0], ("iterproj", it, lid, (0,)))
+                        if len(path) == 1 and it[0] == "call" and it[1] == ("builtin", "zip") and len(it[2]) > path[0] \
+                                and not it[3]:
+                            v = ("idx", it[2][path[0]], ("iterproj", it, lid, ("pos",)))
                         cenv[t.id] = v
                     elif isinstance(t, (ast.Tuple, ast.List)):
                         for i, x in enumerate(t.elts):
@@ -1123,6 +1130,17 @@ class Walker:
         r = self.call_closure(fn, args, kwargs, e, env)
         if r is not None:
             return r
+        # reversed(range(n)) is range(n - 1, -1, -1); reversed(range(a, b)) is range(b - 1, a - 1, -1)
+        if fn == ("builtin", "reversed") and len(args) == 1 and not kwargs and args[0][0] == "call" \
+                and args[0][1] == ("builtin", "range") and not args[0][3] and len(args[0][2]) in (1, 2):
+            ra = args[0][2]
+            lo, hi = (("const", 0), ra[0]) if len(ra) == 1 else ra
+            m1 = ("const", -1)
+            new_lo = ("const", hi[1] - 1) if hi[0] == "const" and isinstance(hi[1], int) else self.binop("-", hi, ("const", 1))
+            new_hi = ("const", lo[1] - 1) if lo[0] == "const" and isinstance(lo[1], int) else self.binop("-", lo, ("const", 1))
+            t = ("call", ("builtin", "range"), (new_lo, new_hi, m1), ())
+            self.emit("call", e, target=("builtin", "range"), value=t, name="builtin.range", args=t[2], kwargs=())
+            return t
         # max/min idioms
         fname = None
         if fn[0] == "mod":
